@@ -235,6 +235,18 @@ def rules(ctx, tier):
                     "%s does not wrap the descriptor opened for the looked-up hash" % b.path)
     r.need(2, "get_size, get_reader")
     out.append(r.finish())
+
+    # a range of the content can only equal the slice if the file holds the content: every write call sends the same
+    # bytes, once and in call order, to counter, hasher and file
+    from . import c18
+    from .base import share_rule
+    x = share_rule(ctx, tier, c18, "R1", "R6",
+                   "the stored file is the streamed content: each write call hands exactly its data parameter, once, "
+                   "through the one buffered writer, to the file (shared with C18-R1)",
+                   "a large chunk is written around the buffer that still holds earlier small chunks: size and hash are "
+                   "right, but the bytes are stored out of order - get_range(0, n) returns bytes of a later chunk")
+    if x is not None:
+        out.append(x)
     return out
 
 
